@@ -40,7 +40,7 @@ T = {
  "C18": ("enumeration of literal programs compiled by the real proc macro and rustc",
          "All literal programs of a bounded grammar are written into a generated crate; accepted ones are compiled and executed, rejected ones must each fail to compile (one located rustc error per invocation); oracle Decimal::from_str of the same text.", "5 C18"),
  "C19": ("stateless exploration of all interleavings of multi-threaded programs under a controlled scheduler on real OS threads",
-         "All interleavings (no sampling) of 2-3 thread programs whose steps are public API calls, for all mode pairs/triples and 11 core rounding operation kinds (round, div_rounded, mul_rounded, *, /, quantize, Display with precision, and the four 256-bit-intermediate variants) plus 19 operand-form kinds (checked_round, checked_div, integer operands of / , checked_div and div_rounded in both positions, /=, *=, by-reference forms, Display with width), every schedule on fresh OS threads in a freshly forked process, every observation compared with a per-thread reference model; all script pairs of three steps over {Set(own), Set(HalfEven), Op}; plus thread-death / spawn-order / no-inheritance histories.", "5 C19"),
+         "All interleavings (no sampling) of 2-3 thread programs whose steps are public API calls, for all mode pairs/triples and 11 core rounding operation kinds (round, div_rounded, mul_rounded, *, /, quantize, Display with precision, and the four 256-bit-intermediate variants) plus 19 operand-form kinds (checked_round, checked_div, integer operands of / , checked_div and div_rounded in both positions, /=, *=, by-reference forms, Display with width), every schedule on fresh OS threads in a freshly forked process, every observation compared with a per-thread reference model; all script pairs of three steps over {Set(own), Set(HalfEven), Op}; thread termination as a scheduled, joined step (family F6); plus thread-death / spawn-order / no-inheritance histories.", "5 C19"),
  "C20": ("differential enumeration over the build-configuration matrix",
          "One deterministic input list (millions of cases over the C01-C15 operation set) is executed in every configuration of overflow-checks x debug-assertions x opt-level x packed and the complete outcome streams are compared with the baseline configuration.", "5 C20"),
 }
